@@ -150,6 +150,15 @@ Theorem C11_holds : forall c, valid c -> holds c (run_model c) = [].
 Proof. exact holds_model. Qed.
 Print Assumptions C11_holds.
 
+(* the driver's `covered` flag (5th item of the entry's answer) is exactly the hypothesis of C11_holds: the variant is
+   the current one and every value in the YAML table is well formed - both decidable from the case *)
+Theorem C11_validb_valid : forall c, validb c = true -> valid c.
+Proof. intros c H. exact H. Qed.
+Print Assumptions C11_validb_valid.
+Theorem C11_covered_cases : forall c, validb c = true -> holds c (run_model c) = [].
+Proof. intros c H. apply C11_holds. exact H. Qed.
+Print Assumptions C11_covered_cases.
+
 (* ---- before ec4c1d7 (finding D17): files selected, no piece -> ValueError instead of {} ---- *)
 Definition pre_ec4c1d7 : variants := {| tag_after := true; rerender := false; empty_raises := true |}.
 Definition cfg0 : config := {| allow_empty_top := false; cfg_ml := false; cfg_ms := true; engine_on := false; suffix := s_yaml |}.
